@@ -349,6 +349,26 @@ INFO8 = {
  "C18-16": ("EncryptedLeaseSet.bytesWithoutSignature() sets the offline-keys flag on the struct field (value already stored)", "EncryptedLeaseSet with an offline-signature block, >= 2 goroutines, one in Bytes() / Verify()"),
 }
 MISSED_FIRST_8 = ["C05-15", "C05-16", "C08-15", "C10-16", "C13-15", "C14-16", "C15-15", "C15-16", "C16-15"]
+# round 9 (the eight properties round 8 left out; all fourteen earlier changes listed); patch k kept as <ID>-<k+14>
+INFO9 = {
+ "C01-15": ("serializeLeaseSet2Content: the lease count byte sits inside if len(leases) > 0", "accepted LeaseSet2 with zero leases: re-serialises one byte short"),
+ "C01-16": ("validateFixedKeySizes: a != x or b != y rewritten as !(a == x or b == y)", "ReadKeysAndCertElgAndEd25519 / ReadKeysAndCertX25519AndEd25519 on a KEY certificate with exactly one matching size: accepted, Bytes() fails"),
+ "C02-15": ("ReadLeaseSet2 flattened: the last step assigns data, err = ..., the named result remainder is never set", "well-formed LeaseSet2 followed by trailing bytes: remainder nil"),
+ "C02-16": ("parseEntryProperties tests len(errs) > 0 instead of len(fatal) > 0: the benign trailing-data warning is fatal", "MetaLeaseSet with an entry whose properties mapping is not empty"),
+ "C07-15": ("buildKeysAndCertBlock builds the block with append(ReceivingPublic.Bytes(), padding...)", "constructed identity whose X25519 key is a window into a larger buffer (cap >= 391): Bytes / Hash write behind the key"),
+ "C07-16": ("Destination.Equals compares with bytes.EqualFold", "single-byte differences in ASCII letter case or between bytes that are invalid UTF-8"),
+ "C11-15": ("Mapping.ToGoMap returns a nil map for zero pairs", "empty mapping, compared as a Go value (nil vs empty map): the pairs are the same - not a violation of C11, which speaks about the map's content"),
+ "C11-16": ("serializeMappingPairs sizes its buffer with the two length bytes added as byte (wraps at 256); copy truncates", "pair with len(key) + len(value) >= 256"),
+ "C12-15": ("EncodeIntN: zero-value fast path above the size check", "EncodeIntN(0, size) with size outside 1..8"),
+ "C12-16": ("DecodeIntN dispatches width 4 to DecodeInt32 (sign-extended)", "4-byte values >= 2^31"),
+ "C17-15": ("introducer accessors merged into one helper whose range guard falls back to 0 for the highest number", "IntroducerHashString / ExpirationString / TagString with introducer number 2"),
+ "C17-16": ("HasValidPort parses with strconv.ParseUint; Port() still uses Atoi", "port with an explicit plus sign (+443)"),
+ "C19-15": ("CertificateBuilder.Validate copies the payload-size check and loses the 72-byte SIGNED alternative", "WithType(SIGNED).WithPayload(72 bytes).Build() versus NewCertificateWithType"),
+ "C19-16": ("WithPayload reuses the builder's buffer (append(cb.payload[:0], ...)); Build() hands it over without a copy", "builder reused: a later WithPayload overwrites the certificate built earlier"),
+ "C20-15": ("RouterVersion() strips the length byte with Get(...)[1:]", "failed-parse RouterInfo whose options are non-nil but lack router.version, then RouterVersion() / GoodVersion()"),
+ "C20-16": ("OfflineSignature.Bytes(): buffer sized by the slices held, key offset by the declared type", "OfflineSignature{} and ReadOfflineSignature results cut inside the transient key"),
+}
+MISSED_FIRST_9 = ["C07-15", "C11-15", "C17-15", "C19-16"]
 MISSED_FIRST_2 = ["C05-4", "C06-3", "C07-4", "C09-3", "C10-4", "C15-3", "C17-3", "C18-4", "C19-3", "C19-4"]
 
 
@@ -373,6 +393,7 @@ def main():
     allinfo.update(INFO6)
     allinfo.update(INFO7)
     allinfo.update(INFO8)
+    allinfo.update(INFO9)
     for key in sorted(allinfo):
         pid, k = key.split("-")
         round2 = key in INFO2
@@ -382,6 +403,7 @@ def main():
         round6 = key in INFO6
         round7 = key in INFO7
         round8 = key in INFO8
+        round9 = key in INFO9
         if round2:
             k = str(int(k) - 2)
         if round3:
@@ -394,9 +416,9 @@ def main():
             k = str(int(k) - 10)
         if round7:
             k = str(int(k) - 12)
-        if round8:
+        if round8 or round9:
             k = str(int(k) - 14)
-        src = os.path.join(SRC, ("R8" if round8 else "R7" if round7 else "R6" if round6 else "R5" if round5 else "R4" if round4 else "R3" if round3 else "R2" if round2 else "") + pid + "-out")
+        src = os.path.join(SRC, ("R9" if round9 else "R8" if round8 else "R7" if round7 else "R6" if round6 else "R5" if round5 else "R4" if round4 else "R3" if round3 else "R2" if round2 else "") + pid + "-out")
         conf = os.path.join(src, "confirm%s.json" % k)
         if not os.path.exists(conf):
             continue
@@ -414,7 +436,7 @@ def main():
         if os.path.exists(os.path.join(src, "notes.md")):
             shutil.copy(os.path.join(src, "notes.md"), os.path.join(dst, "notes.md"))
         caught, missed, detail = [], [], {}
-        rp = os.path.join(SRC, "results8" if round8 else "results7" if round7 else "results6" if round6 else "results5" if round5 else "results4" if round4 else "results3" if round3 else "results2" if round2 else "results", "%s-%s.json" % (pid, k))
+        rp = os.path.join(SRC, "results9" if round9 else "results8" if round8 else "results7" if round7 else "results6" if round6 else "results5" if round5 else "results4" if round4 else "results3" if round3 else "results2" if round2 else "results", "%s-%s.json" % (pid, k))
         if os.path.exists(rp):
             try:
                 r = json.load(open(rp))
@@ -441,9 +463,9 @@ def main():
                 how="seedtool.py confirm: patch applied in a scratch worktree of /repo, `go build ./...`, full existing suite (`go test -vet=off -count=1 ./...`), demo with the patch, patch reverted, demo again" + (" (demo under -race)" if pid == "C18" else ""),
                 suite_passes_with_patch=c.get("suite_rc") == 0, demo_fails_with_patch=c.get("demo_rc_with") != 0, demo_passes_without_patch=c.get("demo_rc_without") == 0,
                 demo_dir=c.get("demo_dir")),
-            checks_run=("quick tier of the target check (and of the neighbouring checks listed) against a scratch worktree with the patch applied (seedtool.py run, VERIF_REPO)" if (round2 or round3 or round4 or round5 or round6 or round7 or round8) else "quick tier of every check against a scratch worktree with the patch applied (seedtool.py run, VERIF_REPO)"),
-            missed_at_first=(key in MISSED_FIRST_2) if round2 else (key in missed3) if round3 else (key in MISSED_FIRST_4) if round4 else (key in MISSED_FIRST_5) if round5 else (key in MISSED_FIRST_6) if round6 else (key in MISSED_FIRST_7) if round7 else (key in MISSED_FIRST_8) if round8 else None,
-            round=8 if round8 else 7 if round7 else 6 if round6 else 5 if round5 else 4 if round4 else 3 if round3 else 2 if round2 else 1,
+            checks_run=("quick tier of the target check (and of the neighbouring checks listed) against a scratch worktree with the patch applied (seedtool.py run, VERIF_REPO)" if (round2 or round3 or round4 or round5 or round6 or round7 or round8 or round9) else "quick tier of every check against a scratch worktree with the patch applied (seedtool.py run, VERIF_REPO)"),
+            missed_at_first=(key in MISSED_FIRST_2) if round2 else (key in missed3) if round3 else (key in MISSED_FIRST_4) if round4 else (key in MISSED_FIRST_5) if round5 else (key in MISSED_FIRST_6) if round6 else (key in MISSED_FIRST_7) if round7 else (key in MISSED_FIRST_8) if round8 else (key in MISSED_FIRST_9) if round9 else None,
+            round=9 if round9 else 8 if round8 else 7 if round7 else 6 if round6 else 5 if round5 else 4 if round4 else 3 if round3 else 2 if round2 else 1,
             caught_by=sorted(caught), first_report=detail.get(pid) or (detail[sorted(detail)[0]] if detail else ""),
             not_reporting=sorted(missed))
         json.dump(meta, open(os.path.join(dst, "meta.json"), "w"), indent=1)
